@@ -109,6 +109,7 @@ def main(argv=None):
     ap.add_argument("--replay")
     ap.add_argument("--all", action="store_true")
     ap.add_argument("--evidence")
+    ap.add_argument("--evidence-dir", help="with --all: write the evidence files into this directory instead of /verif/evidence")
     ap.add_argument("--selfcheck", action="store_true")
     args = ap.parse_args(argv)
     seed = int(os.environ.get("VERIF_SEED", "0") or 0)
@@ -125,7 +126,11 @@ def main(argv=None):
         if args.all:
             rc = 0
             for p in registry.PROPS:
-                rc = max(rc, decide(p, args.tier, args.root, seed))
+                ev = None
+                if args.evidence_dir:
+                    os.makedirs(args.evidence_dir, exist_ok=True)
+                    ev = os.path.join(args.evidence_dir, f"{p}.json")
+                rc = max(rc, decide(p, args.tier, args.root, seed, ev))
             return rc
         if args.prop not in registry.PROPS:
             print(f"ANALYSIS-ERROR unknown or unclaimed property {args.prop}")
